@@ -18,7 +18,7 @@ ASSUMPTIONS = ["models/gear102.py reads IEC 62386-102:2014 9.14/11.7: RANDOMISE,
                "a driver transmits send-twice commands twice and wraps collisions as BackwardFrameError"]
 EXHAUSTIVE = {"quick": False, "thorough": False}
 REQUIRED_ANCHORS = {"all": ["runs_completed", "clash_restarts", "no_addresses_left", "found_at_0xffffff",
-                            "program_failure_raised", "Frame.__setitem__", "interleaved_pairs"]}
+                            "program_failure_raised", "Frame.__setitem__", "interleaved_pairs", "abandoned_sequences"]}
 SHARD_TIMEOUT = {"quick": 600, "thorough": 3000}
 
 SCHEDULES = ["uniform", "tiny", "extremes", "pair_clash", "reuse_earlier", "withdrawn_redraw", "dense", "long_clash"]
@@ -50,6 +50,7 @@ def run_interleaved(desc, seed, res):
             kw["readdress"] = True
         return Bus(units, bound=40000), Commissioning(**kw), lambda: [u.short for u in units]
     pairs.differential(res, "C07", rng(seed, "C07", "interleaved"), {"Commissioning": mk}, desc["n"])
+    pairs.abandon(res, "C07", rng(seed, "C07", "abandon"), {"Commissioning": mk}, desc["n"])
 
 
 class Scheduler:
